@@ -16,7 +16,7 @@ RULE = ("cases = one script line each (subscribe/accept/reject/abandoned call/dr
         "corpus, random walks (+ the same walk with a connection drop injected), long multi-subscription walks, and the "
         "exhaustive space of short scripts (sampled in the quick tier), and the multi-connection families of C06's entry-point "
         "dimension (script token E<server|tower|towermw>: the same script on a Server::start server and on tower services built from clones of one "
-        "TowerServiceBuilder, see tools/props/subhist_common.py:entry_cases).  distinct non-trivial = distinct result lines in "
+        "TowerServiceBuilder, see tools/props/subhist_common.py:entry_cases).  Family id-reuse (entry suffix +r: an IdProvider that hands out ONE id every time; one generation per connection in the table at a time, earlier generations' sinks used / cloned / dropped later; the glue maps unsubscribe targets to the shared id on the wire and renames the ids of the output by generation -- subhist_common.py:rename_by_generation -- before oracle and comparison).  distinct non-trivial = distinct result lines in "
         "which at least one notification frame was delivered.  Back-pressure (engine sinkbp): cases = one script line each "
         "(send/try_send/send_timeout of fresh messages, re-send of a handed-back message through each path, recv, close; "
         "capacities 1..4) run on a real SubscriptionSink over the bounded channel of Methods::raw_json_request / "
@@ -39,6 +39,7 @@ RULE = ("cases = one script line each (subscribe/accept/reject/abandoned call/dr
 TRUSTED = [
     "modelled, not verified: tokio mpsc/oneshot/semaphore semantics and the WS writer (Model/SubBook.v), tied by the differential run only",
     "harness: handler remote control, quiescence detection (barrier round-trips / idle rounds), counting IdProvider, frame canonicalisation (error.data dropped)",
+    "family id-reuse: the constant-id IdProvider of the harness and the glue that renames the shared id by generation (subhist_common.py: impl_line_of / rename_by_generation); sound only for the family's scripts (a connection subscribes again only after its previous subscription is out of the table; only the latest generation's handler returns a closing value), the model itself numbers subscriptions distinctly",
     "sinkbp: tokio's bounded mpsc (capacity, FIFO, close) is modelled by Model/SinkQueue.v and tied by the differential run only; the harness reads "
     "the kind (Complete/NeedsData) and text of a handed-back SubscriptionMessage off its Debug output, reports a `send` that does not finish in 25 ms "
     "as wouldblock and drops it, uses send_timeout(30 ms), and passes the randomly drawn subscription id from the implementation's output to the model",
